@@ -152,7 +152,11 @@ func genC15(r *sim.Rng, tier string, idx int) *GCase {
 				ext = sim.Pick(r, map[string][]string{"lzma": {".xz", ".txz"}, "xz": {".lzma", ".tlz"}}[ff])
 			}
 			f = FileSpec{Name: name + ext, Mode: sim.Pick(r, []uint32{0o644, 0o600, 0o444, 0o755, 0o640}), Kind: "stream", Stream: genForeignStream(r, ff)}
-			switch r.Weighted([]int{12, 1, 1, 1}) {
+			switch r.Weighted([]int{12, 1, 1, 1, 1}) {
+			case 4:
+				if ff == "lzma" && f.Stream.Kind != "corpus" {
+					f.Kind, f.Seed = "tailed", r.Uint64()
+				}
 			case 1:
 				f.Kind = "cut"
 				f.Cut = cutFor(r, f.Stream)
